@@ -79,7 +79,7 @@ func checkTextAnswer(rep reporter, tag string, got []comet.TextResult, exp map[u
 func runC03(r *ev.Run) {
 	r.Rule = "case = generated history over Add(fresh id) / Add(existing live id = replace) / Remove / Flush on a corpus from a 12-30 word vocabulary (ASCII, repeated tokens, empty text, " +
 		"punctuation/whitespace tokens, non-ASCII, compatibility forms); after every op 3-5 text queries x k/id-restriction variants compared with a textbook Okapi BM25 model " +
-		"(N, df, avgdl over resident documents, matches over live documents) plus a metamorphic multi-query check; non-trivial = history has replace, remove and flush and >=1 probe matched documents; distinct by history digest"
+		"(N, df, avgdl over resident documents, matches over live documents) plus a metamorphic multi-query check; non-trivial = history has replace, remove and flush and >=1 probe matched documents; distinct by history digest Since the seed waves: re-add of removed ids (same or new text), replace by the same text, remove-everything-then-flush, operations on the empty index first, double Flush, held and re-executed search objects, WithCutoff prefix, long (65/150 byte) and invalid-UTF-8 tokens."
 	r.Assumptions = []string{"trusted base: the UAX#29 word segmenter and NFKC tables (same third-party libraries comet uses) — the monitor checks comet's use of them and everything after",
 		"open corner: a token repeated inside one query may count per occurrence or once (both accepted, counted)"}
 	n := r.Pick(300, 9000)
